@@ -30,6 +30,9 @@ pub enum Lop {
 	/// opener `id` opens while the in-process owner commits, flushes and closes exactly at the
 	/// moment the opener is about to take the directory lock
 	RaceOpen(u8),
+	/// a clone of opener `id`'s handle is dropped on a plain OS thread (no async runtime there)
+	/// while the opener itself stays open: the directory must stay locked
+	DropCloneElsewhere(u8),
 }
 
 fn lop_str(o: &Lop) -> String {
@@ -40,6 +43,7 @@ fn lop_str(o: &Lop) -> String {
 		Lop::ChildOpen => "child-open".into(),
 		Lop::ChildKill => "child-kill".into(),
 		Lop::RaceOpen(i) => format!("open{i}-while-owner-closes"),
+		Lop::DropCloneElsewhere(i) => format!("drop-clone-of-{i}-on-plain-thread"),
 	}
 }
 
@@ -210,6 +214,15 @@ pub fn run_seq(ops: &[Lop]) -> Result<Option<(String, String)>, String> {
 							other => return Ok(Some(("data-missing-after-racing-open".into(), ctx(format!("the opener won the directory right after the owner's close but does not see all committed data: {:?}", other.map(|d| d.iter().map(|(k, _)| String::from_utf8_lossy(k).to_string()).collect::<Vec<_>>())))))),
 						},
 					}
+					// the winner now owns the directory: a further opener must be refused
+					{
+						let mut w3 = World::attach(OptSet::base("L2"), &dir, &[]);
+						let r3 = w3.open();
+						if r3.is_ok() {
+							return Ok(Some(("second-instance-admitted".into(), ctx("a third opener was admitted while the opener that won the race holds the directory".into()))));
+						}
+						w3.abandon();
+					}
 					// and the directory must stay openable afterwards
 					w.close().map_err(|e| ctx(format!("close: {e}")))?;
 					if let Err(e) = w.open() {
@@ -221,6 +234,13 @@ pub fn run_seq(ops: &[Lop]) -> Result<Option<(String, String)>, String> {
 					}
 					owner = Some(format!("opener{id}"));
 					openers.insert(*id, w);
+				}
+				Lop::DropCloneElsewhere(id) => {
+					if let Some(w) = openers.get(id) {
+						let clone = w.tree().clone();
+						std::thread::spawn(move || drop(clone)).join().map_err(|_| ctx("thread panicked".into()))?;
+						// ownership is unchanged
+					}
 				}
 				Lop::ChildKill => {
 					if let Some(c) = child.take() {
@@ -265,6 +285,11 @@ fn gen(maxlen: usize) -> Vec<Vec<Lop>> {
 		if o2 && !o1 && !ch {
 			cur.push(Lop::RaceOpen(1));
 			rec(maxlen, cur, true, false, ch, out);
+			cur.pop();
+		}
+		if o1 && !cur.iter().any(|o| matches!(o, Lop::DropCloneElsewhere(_))) {
+			cur.push(Lop::DropCloneElsewhere(1));
+			rec(maxlen, cur, o1, o2, ch, out);
 			cur.pop();
 		}
 		if o1 {
@@ -368,6 +393,8 @@ pub fn replay(r: &J) -> i32 {
 			"drop1" => Lop::Drop(1),
 			"drop2" => Lop::Drop(2),
 			"child-open" => Lop::ChildOpen,
+			"drop-clone-of-1-on-plain-thread" => Lop::DropCloneElsewhere(1),
+			"drop-clone-of-2-on-plain-thread" => Lop::DropCloneElsewhere(2),
 			"open1-while-owner-closes" => Lop::RaceOpen(1),
 			"open2-while-owner-closes" => Lop::RaceOpen(2),
 			_ => Lop::ChildKill,
